@@ -1661,6 +1661,14 @@ result_t SimpleCondition::resolve(void (*readMessageFunc)(Message* message), Mes
   return RESULT_OK;
 }
 
+void SimpleCondition::messageRemoved(const Message* message) {
+  if (m_message == message) {
+    m_message = nullptr;  // resolved again on next resolve()
+    m_lastCheckTime = 0;
+    m_isTrue = false;
+  }
+}
+
 bool SimpleCondition::isTrue() {
   if (!m_message) {
     return false;
@@ -2036,6 +2044,9 @@ void MessageMap::remove(Message* message) {
     m_pollMessages.remove(message);
   }
   if (needDelete) {
+    for (const auto& it : m_conditions) {
+      it.second->messageRemoved(message);  // no condition may keep referring to it
+    }
     delete message;
   }
   unlock();
